@@ -4,7 +4,7 @@
    Mirrors /repo/types/checker/local.go:
      localEnvironment{parent, locals, typ}         -> frame / env (head = current, tail = parents)
      addLocal / getLocal                           -> add / get
-     (*localEnvironment).resolveLocal(name, unhyg) -> resolve
+     localEnvironment.resolveLocal(name, unhyg)    -> resolve
      pushNestedLocalEnv / pushMacroBoundaryLocalEnv / pushConditionalLocalEnv / popLocalEnv -> push / pop
    and /repo/types/checker/checker.go:
      checkMacroBoundaryNode (push boundary frame, check body, pop)       -> SBoundary
